@@ -67,7 +67,7 @@ const (
 )
 
 func vfC14Panics(f func()) (panicked bool) {
-	if vf.Param("norecover", 0) == 1 {
+	if vf.Param("norecover", 0) == 1 { // debugging aid: let the engine report the panic message and stack
 		f()
 		return false
 	}
